@@ -47,6 +47,9 @@ impl Decoder for Socks5InitialRequestDecoder {
     type Error = anyhow::Error;
 
     fn decode(&mut self, src: &mut BytesMut) -> Result<Option<Self::Item>> {
+        if src.remaining() < 2 || src.remaining() < 2 + src[1] as usize {
+            return Ok(None);
+        }
         let version = src.get_u8();
         if VERSION != version {
             bail!("unsupported version: {}", version);
@@ -68,6 +71,9 @@ impl Decoder for Socks5CommandRequestDecoder {
     type Error = anyhow::Error;
 
     fn decode(&mut self, src: &mut BytesMut) -> Result<Option<Self::Item>> {
+        if src.remaining() < 5 || src.remaining() < 3 + address::try_decode_at(src, 3)? {
+            return Ok(None);
+        }
         let version = src.get_u8();
         if VERSION != version {
             bail!("unsupported version: {}", version);
@@ -87,6 +93,9 @@ impl Decoder for Socks5InitialResponseDecoder {
     type Error = anyhow::Error;
 
     fn decode(&mut self, src: &mut BytesMut) -> Result<Option<Self::Item>, Self::Error> {
+        if src.remaining() < 2 {
+            return Ok(None);
+        }
         let version = src.get_u8();
         if VERSION != version {
             bail!("unsupported version: {}", version);
@@ -103,6 +112,9 @@ impl Decoder for Socks5CommandResponseDecoder {
     type Error = anyhow::Error;
 
     fn decode(&mut self, src: &mut BytesMut) -> Result<Option<Self::Item>> {
+        if src.remaining() < 5 || src.remaining() < 3 + address::try_decode_at(src, 3)? {
+            return Ok(None);
+        }
         let version = src.get_u8();
         if VERSION != version {
             bail!("unsupported version: {}", version);
@@ -125,7 +137,7 @@ impl Decoder for Socks5UdpCodec {
         if src.is_empty() {
             return Ok(None);
         }
-        if src.remaining() < 5 {
+        if src.remaining() < 5 || src.remaining() < 3 + address::try_decode_at(src, 3)? {
             bail!("Insufficient length of packet");
         }
         if src[2] != 0 {
